@@ -42,6 +42,7 @@ values (SkipBranch, StopTraversal), max_results=0, unhashable keys.
 """
 from __future__ import annotations
 
+import functools
 import itertools
 import random
 import re
@@ -156,6 +157,41 @@ def calc(flavour, data):
     return hash(data)
 
 
+CALLABLE_KINDS = ("func", "partial", "obj", "method", "type")
+
+
+class _CallableObj:
+    def __init__(self, f):
+        self.f = f
+
+    def __call__(self, n):
+        return self.f(n)
+
+    def meth(self, n):
+        return self.f(n)
+
+
+def _as_callable(f, kind):
+    """The same predicate as another kind of callable: a predicate is whatever `callable()` accepts, not only
+    a function object."""
+    if kind == "func":
+        return f
+    if kind == "partial":
+        return functools.partial(lambda _x, n: f(n), None)
+    if kind == "obj":
+        return _CallableObj(f)
+    if kind == "method":
+        return _CallableObj(f).meth
+    if kind == "type":  # a class is a callable too; its __new__ hands back the predicate's answer
+
+        class _T:
+            def __new__(cls, n):
+                return f(n)
+
+        return _T
+    raise ValueError(kind)
+
+
 def matcher(mspec, nodes):
     """mspec: ['re', pattern] | ['ref', pattern, flags] | ['refl', pattern, flags] (list argument)
     | ['set', [idx...]] callback by node identity | ['lab', [names...]] callback by name.
@@ -180,10 +216,10 @@ def matcher(mspec, nodes):
                 return (n._children or "x") if hit else ("", [], 0, {}, ())[id(n) % 5]
             return True if hit else None  # 'none' flavour: False is spelled None
 
-        return cb, (lambda n: id(n) in ids)
+        return _as_callable(cb, mspec[3] if len(mspec) > 3 else "func"), (lambda n: id(n) in ids)
     if t == "lab":
         names = set(mspec[1])
-        return (lambda n: str(n._data) in names), (lambda n: name(n) in names)
+        return _as_callable(lambda n: str(n._data) in names, mspec[2] if len(mspec) > 2 else "func"), (lambda n: name(n) in names)
     raise ValueError(mspec)
 
 
@@ -531,15 +567,15 @@ def enum_cases(spec, flavour, *, max_subset_nodes=4, thin=False):
     if n <= max_subset_nodes:
         for r in range(n + 1):
             for sub in itertools.combinations(range(n), r):
-                mspecs.append(["set", list(sub), ("bool", "none", "falsy")[(r + sum(sub)) % 3]])
+                mspecs.append(["set", list(sub), ("bool", "none", "falsy")[(r + sum(sub)) % 3], CALLABLE_KINDS[(2 * r + sum(sub) // 3) % 5]])
     else:
         al = ALPHABET[flavour]
         for r in range(len(al) + 1):
             for sub in itertools.combinations(al, r):
-                mspecs.append(["lab", list(sub)])
+                mspecs.append(["lab", list(sub), CALLABLE_KINDS[(r + sum(ord(c) for x in sub for c in x)) % 5]])
     if n > 12:  # larger trees: a few node subsets as callbacks, the labels present as data keys
         for sub in (list(range(0, n, 3)), list(range(1, n, 2)), [0], [n - 1], list(range(n // 2, n))):
-            mspecs.append(["set", sub, ("bool", "none", "falsy")[len(sub) % 3]])
+            mspecs.append(["set", sub, ("bool", "none", "falsy")[len(sub) % 3], CALLABLE_KINDS[(len(sub) + sub[0]) % 5]])
     starts = [-1] + list(range(n))
     for s in starts:
         for ms in mspecs:
